@@ -1,4 +1,4 @@
-import re
+import keyword
 import string
 from abc import ABC, abstractmethod
 
@@ -10,12 +10,22 @@ class NameSanitizer(ABC):
 
 
 class BuiltinNameSanitizer(NameSanitizer):
-    _BAD_CHARS = re.compile(r"\W")
+    """Turns any string into a string that can be used as an identifier inside generated code:
+    the result is either empty (only for empty input) or a valid python identifier that is not a keyword.
+    """
     _TRANSLATE_MAP = str.maketrans({".": "_", "[": "_"})
+
+    def _is_identifier_char(self, char: str) -> bool:
+        return ("_" + char).isidentifier()
 
     def sanitize(self, name: str) -> str:
         if name == "":
             return ""
 
         first_letter = name[0] if name[0] in string.ascii_letters else "_"
-        return first_letter + self._BAD_CHARS.sub("", name[1:].translate(self._TRANSLATE_MAP))
+        result = first_letter + "".join(
+            filter(self._is_identifier_char, name[1:].translate(self._TRANSLATE_MAP)),
+        )
+        if keyword.iskeyword(result):
+            return result + "_"
+        return result
